@@ -106,6 +106,7 @@ def generate(job):
         spec["bins"] = rs.choice([1, 5, 20])
         spec["dseed"] = rs.randrange(1 << 30)
         spec["weighted"] = rs.chance(0.7)
+        spec["signed"] = rs.chance(0.4)  # sideband-subtraction style +1/-1 weights that cancel inside bins
     return spec
 
 
@@ -529,6 +530,8 @@ def run_hist(spec, log):
     n = spec["n"]
     m = g.normal(size=n)
     w = g.random(n) * 3 if spec["weighted"] else None
+    if spec.get("signed") and spec["weighted"]:
+        w = np.where(g.random(n) < 0.5, 1.0, -1.0)
     lo, hi = -1.5, 1.5
     h = Hist1D.histogram(m, bins=spec["bins"], range=(lo, hi), weights=w)
     inr = (m >= lo) & (m <= hi)
